@@ -41,6 +41,7 @@ var c12Skeletons = []string{
 	"loop if % then return % end break end return 'x'",
 	"if % then loop break end continue end return %",
 	"set v to % set w to v return w",
+	"set w to v + 'x' set v to % return w",
 }
 
 func VerifC12StmtCount() int { return len(c12Skeletons) * 2 }
@@ -167,7 +168,8 @@ func VerifC12Stmt(job int, twin int) {
 	if predicate {
 		src = "set p to pattern any begin " + body + " end find all p"
 	} else {
-		src = "set f to transform " + body + " end replace all any with f"
+		// the transform is used twice per match: a call must not see what an earlier call assigned
+		src = "set f to transform " + body + " end replace all any with f f"
 	}
 	vNote("source", src)
 	a := vParse(src)
